@@ -43,6 +43,16 @@ CLAIMED = {
         "Trusted: Lean kernel + standard axioms, Mathlib's real analysis (logb, rpow); floating-point rounding not modelled (1e-9 comparison); level conditions evaluated by the harness.",
         "DESIGN.md §6 C02",
     ),
+    "C13": (
+        "Lean 4 theorems about the blocking, clustering and EM models: `block` is equivariant under every re-listing of the rows (same pairs, same match_key), invariant under reordering of rules "
+        "(pair set) and under any salting/partitioning (up to permutation), identical under monotone relabelling of ids and equal as unordered pairs under arbitrary relabelling with symmetric rules, "
+        "two tables = one table with a source column; connected components commute with node bijections; one EM step (hence every number of iterations) is invariant under permutation of the "
+        "comparison-vector rows (over the reals). Tie: each base scenario is run through the real linker in canonical form and under each re-presentation (row/table order, column names incl. spaces, "
+        "upper case, keywords and reserved words, uid name/type/relabelling, link-type formulation, rule order, salting 1-8 run twice, both materialisation flags, debug mode, DuckDB threads 1/4/16; singly "
+        "and combined) and the mapped-back pair sets, scores, partitions and trained parameters are compared; the compiled model is run on base and transported inputs.",
+        "Trusted: Lean kernel + standard axioms; EM invariance is over the reals (tolerance 1e-7 on floats); scheduling/materialisation/debug are not modelled (covered by repetition only); column names are not inspected by the models.",
+        "DESIGN.md §6 C13",
+    ),
     "C14": (
         "Lean 4 theorems about a model of blocking_analysis.py and the GENERATED calculate_cartesian (re-translated from misc.py by T-arith on every run, instantiated at Q): "
         "pre-filter count = size of the equi-join (sum of block products, NULL keys never join), reported blocks exact, post-filter count = number of blocked pairs, marginal counts = rows per "
